@@ -31,6 +31,8 @@ def files(rng, thorough):
             out.append(b"head {" + t + b"// DDBEGIN {" + t + b + b"} // DDEND" + t + b"} tail" + t)
             out.append(b"DDBEGIN" + t + b + b"DDEND")
     out.append(b"{\nDDBEGIN\n{\n\n}\na\n{\nDDEND\n}\n")
+    out.append(b"\xef\xbb\xbf// header with a byte-order mark\n// DDBEGIN\na\n{\n\n}\nb\n// DDEND\n\xef\xbb\xbftail\n")
+    out.append(b"\xff\xfeh\r\nDDBEGIN\r\nab\r\nDDEND\x00\r\n")
     out.append(b"h\nDDBEGIN\nab{\n}DDEND\n}\n")
     out.append(b"h {\r\n/* DDBEGIN */\r\nf(a){\r\n \r\n}\r\n/* DDEND */ }\r\nt\r\n")
     return out
